@@ -25,9 +25,14 @@ package arbitrator
 //     does not look at the annotation) - it becomes Running and stays in the waiting collection.
 //   * Running -> Succeeded (pod evicted, replacement pod with a NEW name) / Failed / Aborted; the
 //     terminal Update event reaches the handler immediately or one round late. Deletes likewise.
-//   * Pod names are never re-used; pods carry no evict annotation, are never terminating, are not
-//     DaemonSet/mirror/static/critical/PVC/local-storage pods, so the only non-retryable rules in
-//     play are the bare-pod rule and the expected-replicas rule (both modelled as "may forbid").
+//   * Pod names are never re-used; pods carry no evict annotation and are not DaemonSet / mirror /
+//     static / critical / PVC / local-storage pods, so the only non-retryable rules in play are the
+//     bare-pod rule, the expected-replicas rule and "pod is terminating" (all modelled as "may
+//     forbid").
+//   * A pod may be inactive while its Ready condition still says True: a replica that is being
+//     deleted gracefully (deletionTimestamp set, containers still serving) and a finished pod
+//     (Succeeded/Failed, e.g. of a Job, or a pod whose kubelet no longer reports) whose Ready
+//     condition was left True. Per the statement such a pod is unavailable ("NotRunning/NotReady").
 //   * Workloads are ReplicaSet / StatefulSet / Job kinds owning their pods directly (no Deployment
 //     indirection); the fake controller finder answers GetPodsForRef with the API pods owned by the
 //     workload UID in the namespace and the workload's expected replicas of the moment.
@@ -521,10 +526,12 @@ func (w *c16aWorld) newPod(wl *c16aWorkload, ns, node string, state int) *corev1
 	}
 	c16aSetPodState(pod, state)
 	w.must(w.cl.Create(context.TODO(), pod), "create pod")
+	w.countPodState(pod)
 	return pod
 }
 
-// pod states: 0 running+ready, 1 running not ready, 2 pending (scheduled), 3 failed, 4 pending unscheduled
+// pod states: 0 running+ready, 1 running not ready, 2 pending (scheduled), 3 failed, 4 pending unscheduled,
+// 5 succeeded with the Ready condition left True, 6 failed with the Ready condition left True
 func c16aSetPodState(pod *corev1.Pod, state int) {
 	ready := corev1.ConditionFalse
 	switch state {
@@ -539,20 +546,89 @@ func c16aSetPodState(pod *corev1.Pod, state int) {
 	case 4:
 		pod.Status.Phase = corev1.PodPending
 		pod.Spec.NodeName = ""
+	case 5:
+		pod.Status.Phase, ready = corev1.PodSucceeded, corev1.ConditionTrue
+	case 6:
+		pod.Status.Phase, ready = corev1.PodFailed, corev1.ConditionTrue
 	}
 	pod.Status.Conditions = []corev1.PodCondition{{Type: corev1.PodReady, Status: ready}}
 }
 
-func (w *c16aWorld) genPodState() int { return w.r.Weighted(72, 12, 8, 5, 3) }
+func (w *c16aWorld) genPodState() int { return w.r.Weighted(70, 11, 7, 4, 3, 3, 2) }
+
+const c16aFinalizer = "verif.example/graceful-termination"
+
+// c16aReadyCond is the raw Ready condition, whatever the phase / deletionTimestamp.
+func c16aReadyCond(p *corev1.Pod) bool {
+	for _, c := range p.Status.Conditions {
+		if c.Type == corev1.PodReady {
+			return c.Status == corev1.ConditionTrue
+		}
+	}
+	return false
+}
+
+// c16aInactiveButReady: finished or being deleted, yet the Ready condition is True.
+func c16aInactiveButReady(p *corev1.Pod) bool {
+	return c16aReadyCond(p) && (p.DeletionTimestamp != nil || p.Status.Phase == corev1.PodSucceeded || p.Status.Phase == corev1.PodFailed)
+}
+
+func (w *c16aWorld) countPodState(p *corev1.Pod) {
+	if !c16aReadyCond(p) {
+		return
+	}
+	if p.DeletionTimestamp != nil {
+		w.c.Count("pods_terminating_but_ready", 1)
+	} else if p.Status.Phase == corev1.PodSucceeded || p.Status.Phase == corev1.PodFailed {
+		w.c.Count("pods_terminal_phase_but_ready", 1)
+	}
+}
+
+func (w *c16aWorld) getPod(ns, name string) *corev1.Pod {
+	p := &corev1.Pod{}
+	if err := w.cl.Get(context.TODO(), types.NamespacedName{Namespace: ns, Name: name}, p); err != nil {
+		if apierrors.IsNotFound(err) {
+			return nil
+		}
+		w.must(err, "get pod")
+	}
+	return p
+}
+
+// startTerminating: graceful deletion has begun (deletionTimestamp set; a finalizer stands in for
+// the grace period), the conditions are left as they are.
+func (w *c16aWorld) startTerminating(p *corev1.Pod) *corev1.Pod {
+	p = w.getPod(p.Namespace, p.Name)
+	if p == nil || p.DeletionTimestamp != nil {
+		return p
+	}
+	p.Finalizers = append(p.Finalizers, c16aFinalizer)
+	w.must(w.cl.Update(context.TODO(), p), "add finalizer")
+	w.must(w.cl.Delete(context.TODO(), p), "graceful delete")
+	p = w.getPod(p.Namespace, p.Name)
+	if p == nil || p.DeletionTimestamp == nil {
+		w.c.Harness("pod did not become terminating: %+v", p)
+	}
+	w.countPodState(p)
+	return p
+}
 
 func c16aPodStr(p *corev1.Pod) string {
 	owner := "bare"
 	if o := metav1.GetControllerOf(p); o != nil {
 		owner = o.Name
 	}
-	return fmt.Sprintf("%s/%s(node=%s owner=%s %s ready=%v)", p.Namespace, p.Name, p.Spec.NodeName, owner, p.Status.Phase, c16aAvailable(p))
+	ph := string(p.Status.Phase)
+	if p.DeletionTimestamp != nil {
+		ph += ",terminating"
+	}
+	return fmt.Sprintf("%s/%s(node=%s owner=%s %s readyCondition=%v available=%v)", p.Namespace, p.Name, p.Spec.NodeName, owner, ph, c16aReadyCond(p), c16aAvailable(p))
 }
 
+// c16aAvailable is the oracle's own predicate, written from the statement and the API doc
+// ("unavailable includes NotRunning/NotReady/Migrating/Evicting"; kubernetes: a pod is active iff
+// its phase is neither Succeeded nor Failed and it has no deletionTimestamp) and deliberately not
+// built on the helpers the filter uses: unavailable = not active OR Ready condition not True.
 // c16aAvailable: the pod counts as available iff it is active (not Succeeded/Failed, not being
 // deleted) and its Ready condition is true ("unavailable state includes NotRunning/NotReady").
 func c16aAvailable(p *corev1.Pod) bool {
@@ -751,6 +827,9 @@ func c16aCount(s *c16aSnap) *c16aCounts {
 // pod is Failed); a workload whose expected replicas are 1 or equal its max-migrating or
 // max-unavailable unless SkipCheckExpectedReplicas.
 func (w *c16aWorld) mayBeForbidden(p *corev1.Pod) bool {
+	if p.DeletionTimestamp != nil {
+		return true // "pod is terminating"
+	}
 	if len(p.OwnerReferences) == 0 {
 		if w.cfg.evictAllBare {
 			return false
@@ -846,28 +925,34 @@ func (w *c16aWorld) checkRound(round int, before, after *c16aSnap, waitingBefore
 	}
 
 	// (1) budgets: |P_after| <= max(limit, |P_before|) per dimension
-	dim := func(name, key string, limit, b, a int) {
+	dim := func(name, key string, limit, b, a int) (atLimit bool) {
 		c.Count("budget_checks", 1)
 		if limit > 0 && b > limit {
 			st.preExceeded = append(st.preExceeded, name)
 			c.Count("pre_exceeded_"+name, 1)
 		}
 		if a <= b {
-			return
+			return false
 		}
 		c.Count("budget_checks_grown", 1)
 		if limit <= 0 {
-			return
+			return false
 		}
 		if a > limit {
+			what := "pods with a running-or-passed migration job"
+			if name == "workload-unavailable" {
+				what = "pods that are unavailable (not active or not ready) or have a running-or-passed migration job"
+			}
 			c.Fail("C16/arbitrator/over-limit/"+name,
-				"round %d: %s %s has %d pods with a running-or-passed migration job after the round, limit %d, %d before the round\nconfig: %s\nP before: %s\nP after: %s",
-				round, name, key, a, limit, b, cfg.desc, pSet(before), pSet(after))
+				"round %d: %s %s has %d %s after the round, limit %d, %d before the round\nconfig: %s\nP before: %s\nP after: %s%s",
+				round, name, key, a, what, limit, b, cfg.desc, pSet(before), pSet(after), w.workloadPodsStr(after, name, key))
 		}
 		if a == limit {
 			st.boundary = append(st.boundary, name)
 			c.Count("boundary_hits_"+name, 1)
+			return true
 		}
+		return false
 	}
 	dim("global", "", cfg.global, cb.global, ca.global)
 	for _, ns := range w.nss {
@@ -881,7 +966,43 @@ func (w *c16aWorld) checkRound(round int, before, after *c16aSnap, waitingBefore
 			dim("workload-migrating", wl.name, c16aWorkloadLimit(cfg.args.MaxMigratingPerWorkload, wl.replicas), cb.wl[wl.uid], ca.wl[wl.uid])
 		}
 		if cfg.wlUnavOn {
-			dim("workload-unavailable", wl.name, c16aWorkloadLimit(cfg.args.MaxUnavailablePerWorkload, wl.replicas), cb.unav[wl.uid], ca.unav[wl.uid])
+			lim := c16aWorkloadLimit(cfg.args.MaxUnavailablePerWorkload, wl.replicas)
+			// how much of the budget is taken by pods that are inactive although their Ready condition is True
+			inactiveReady, readyOnlyU, candidate := 0, 0, false
+			for _, k := range before.podKeys {
+				p := before.pods[k]
+				if o := metav1.GetControllerOf(p); o == nil || o.UID != wl.uid {
+					continue
+				}
+				if c16aInactiveButReady(p) && !cb.m[k] {
+					inactiveReady++
+				}
+				if cb.m[k] || !c16aReadyCond(p) {
+					readyOnlyU++ // what a count that looks at the Ready condition only would see
+				}
+			}
+			for _, u := range waitingBefore {
+				if j := before.byUID[u]; j != nil && c16aLive(j) {
+					if p := before.podOf(j); p != nil && !cb.m[c16aPodKey(p.Namespace, p.Name)] && p.DeletionTimestamp == nil {
+						if o := metav1.GetControllerOf(p); o != nil && o.UID == wl.uid {
+							candidate = true
+						}
+					}
+				}
+			}
+			if inactiveReady > 0 {
+				c.Count("workload_rounds_with_inactive_but_ready_pods", 1)
+				if candidate && cb.unav[wl.uid] >= lim && readyOnlyU < lim {
+					// the budget is full only because of such pods, and a job of this workload is waiting
+					c.Count("unavailable_budget_full_only_by_inactive_but_ready_pods", 1)
+				}
+				if candidate && cb.unav[wl.uid] == lim-1 {
+					c.Count("unavailable_budget_one_below_limit_with_inactive_but_ready_pods", 1)
+				}
+			}
+			if dim("workload-unavailable", wl.name, lim, cb.unav[wl.uid], ca.unav[wl.uid]) && inactiveReady > 0 {
+				c.Count("boundary_hits_workload-unavailable_with_inactive_but_ready_pods", 1)
+			}
 		}
 	}
 
@@ -1042,6 +1163,20 @@ func c16aDebug(format string, a ...any) {
 	}
 }
 
+// workloadPodsStr lists the pods of a workload for a per-workload violation message.
+func (w *c16aWorld) workloadPodsStr(s *c16aSnap, dim, key string) string {
+	if !strings.HasPrefix(dim, "workload") {
+		return ""
+	}
+	out := "\npods of " + key + ":"
+	for _, k := range s.podKeys {
+		if o := metav1.GetControllerOf(s.pods[k]); o != nil && o.Name == key {
+			out += " " + c16aPodStr(s.pods[k])
+		}
+	}
+	return out
+}
+
 func c16aPodStrOrNil(p *corev1.Pod) string {
 	if p == nil {
 		return "<missing>"
@@ -1121,8 +1256,49 @@ func (w *c16aWorld) genCluster() {
 			npods = wl.replicas + r.Range(1, 2)
 		}
 		c.Op("workload %s/%s kind=%s replicas=%d pods=%d", wl.ns, wl.name, wl.kind, wl.replicas, npods)
+		var mine []*corev1.Pod
 		for p := 0; p < npods; p++ {
-			pod := w.newPod(wl, wl.ns, pickNode(), w.genPodState())
+			mine = append(mine, w.newPod(wl, wl.ns, pickNode(), w.genPodState()))
+		}
+		// inactive-but-ready pods: a few at random, and in ~45% of the workloads as many as it takes to
+		// put the workload one below / exactly at its allowed unavailability
+		lim := c16aWorkloadLimit(w.cfg.args.MaxUnavailablePerWorkload, wl.replicas)
+		cur, need := 0, 0
+		for _, p := range mine {
+			if !c16aAvailable(p) {
+				cur++
+			}
+		}
+		switch r.Weighted(55, 25, 12, 8) {
+		case 1:
+			need = lim - 1 - cur
+		case 2:
+			need = lim - cur
+		case 3:
+			need = r.Range(1, 2)
+		}
+		for _, i := range r.Perm(len(mine)) {
+			if need <= 0 {
+				break
+			}
+			if !c16aAvailable(mine[i]) {
+				continue
+			}
+			kind := r.Weighted(50, 30, 20)
+			if wl.kind == JobKind {
+				kind = r.Weighted(25, 60, 15)
+			}
+			switch kind {
+			case 0:
+				mine[i] = w.startTerminating(mine[i])
+			case 1, 2:
+				c16aSetPodState(mine[i], 4+kind)
+				w.must(w.cl.Update(context.TODO(), mine[i]), "update pod")
+				w.countPodState(mine[i])
+			}
+			need--
+		}
+		for _, pod := range mine {
 			c.Op("  pod %s", c16aPodStr(pod))
 		}
 	}
@@ -1167,8 +1343,7 @@ func (w *c16aWorld) genSnapshotJobs(restart bool) {
 			// name and another uid exists
 			j = w.createJob(p.Namespace, p.Name, types.UID("old-"+string(p.UID)), 0, sev1alpha1.PodMigrationJobSucceeded, true)
 			if r.Pct(70) {
-				w.must(w.cl.Delete(context.TODO(), p), "delete pod")
-				c.Op("  (its pod %s/%s was migrated away)", p.Namespace, p.Name)
+				w.deletePod(p, "migrated away by the finished job")
 			}
 		case 2:
 			j = w.createJob(p.Namespace, p.Name, p.UID, 0, sev1alpha1.PodMigrationJobFailed, r.Bool())
@@ -1179,8 +1354,7 @@ func (w *c16aWorld) genSnapshotJobs(restart bool) {
 		created = append(created, j)
 		if j.Status.Phase == sev1alpha1.PodMigrationJobRunning && r.Pct(20) {
 			// migration under way: the pod is already evicted
-			w.must(w.cl.Delete(context.TODO(), p), "delete pod")
-			c.Op("  its pod %s/%s is already evicted", p.Namespace, p.Name)
+			w.deletePod(p, "already evicted by its running job")
 		}
 	}
 	if restart {
@@ -1251,7 +1425,18 @@ func (w *c16aWorld) addWaitingJobs(n int) {
 }
 
 func (w *c16aWorld) deletePod(p *corev1.Pod, why string) {
-	w.must(w.cl.Delete(context.TODO(), p), "delete pod")
+	cur := w.getPod(p.Namespace, p.Name)
+	if cur != nil && len(cur.Finalizers) > 0 {
+		cur.Finalizers = nil
+		w.must(w.cl.Update(context.TODO(), cur), "remove finalizer")
+		cur = w.getPod(p.Namespace, p.Name) // a terminating pod is gone once its finalizers are
+	}
+	if cur != nil {
+		w.must(w.cl.Delete(context.TODO(), cur), "delete pod")
+	}
+	if w.getPod(p.Namespace, p.Name) != nil {
+		w.c.Harness("pod %s/%s survived its deletion", p.Namespace, p.Name)
+	}
 	w.c.Op("  pod %s/%s deleted (%s)", p.Namespace, p.Name, why)
 }
 
@@ -1290,7 +1475,7 @@ func (w *c16aWorld) envStep() {
 	}
 	for i, n := 0, r.Range(2, 7); i < n; i++ {
 		s = w.snapshot()
-		switch r.Weighted(22, 8, 10, 22, 14, 8, 8, 8) {
+		switch r.Weighted(22, 8, 10, 22, 14, 8, 8, 8, 9, 6, 5) {
 		case 0: // a running job completes
 			var running []*sev1alpha1.PodMigrationJob
 			for _, j := range s.jobs {
@@ -1344,12 +1529,13 @@ func (w *c16aWorld) envStep() {
 				continue
 			}
 			p := s.pods[kit.Pick(r, s.podKeys)].DeepCopy()
-			st := r.Weighted(55, 30, 0, 15, 0)
+			st := r.Weighted(50, 27, 0, 10, 0, 7, 6)
 			if p.Spec.NodeName == "" {
 				p.Spec.NodeName = kit.Pick(r, w.nodes) // got scheduled
 			}
 			c16aSetPodState(p, st)
 			w.must(w.cl.Update(context.TODO(), p), "update pod")
+			w.countPodState(p)
 			c.Op("env: pod now %s", c16aPodStr(p))
 			c.Count("env_pod_state", 1)
 		case 5: // workload scaled
@@ -1395,6 +1581,59 @@ func (w *c16aWorld) envStep() {
 			c.Op("env: user labels the un-arbitrated job %s; the update event triggers the reconciler", j.Name)
 			w.promote(s, w.getJob(j.Name), "touched")
 			c.Count("env_job_touched", 1)
+		case 8: // a workload replica starts terminating gracefully: deletionTimestamp set, still Ready
+			var cand []*corev1.Pod
+			for _, k := range s.podKeys {
+				if p := s.pods[k]; metav1.GetControllerOf(p) != nil && c16aAvailable(p) {
+					cand = append(cand, p)
+				}
+			}
+			if len(cand) == 0 {
+				continue
+			}
+			p := w.startTerminating(kit.Pick(r, cand))
+			c.Op("env: pod starts terminating gracefully: %s", c16aPodStr(p))
+			if r.Pct(50) {
+				w.replacementFor(p)
+			}
+			c.Count("env_pod_terminating", 1)
+		case 9: // a pod finishes (Job-like pods preferably) and its Ready condition is left True
+			var cand, jobPods []*corev1.Pod
+			for _, k := range s.podKeys {
+				p := s.pods[k]
+				if o := metav1.GetControllerOf(p); o != nil && c16aAvailable(p) {
+					cand = append(cand, p)
+					if o.Kind == JobKind {
+						jobPods = append(jobPods, p)
+					}
+				}
+			}
+			if len(jobPods) > 0 && r.Pct(70) {
+				cand = jobPods
+			}
+			if len(cand) == 0 {
+				continue
+			}
+			p := kit.Pick(r, cand).DeepCopy()
+			c16aSetPodState(p, kit.Pick(r, []int{5, 5, 6}))
+			w.must(w.cl.Update(context.TODO(), p), "update pod")
+			w.countPodState(p)
+			c.Op("env: pod finished, Ready condition left True: %s", c16aPodStr(p))
+			c.Count("env_pod_finished_ready", 1)
+		case 10: // a terminating pod is finally gone
+			var cand []*corev1.Pod
+			for _, k := range s.podKeys {
+				if s.pods[k].DeletionTimestamp != nil {
+					cand = append(cand, s.pods[k])
+				}
+			}
+			if len(cand) == 0 {
+				continue
+			}
+			p := kit.Pick(r, cand)
+			c.Op("env: terminating pod %s/%s is gone", p.Namespace, p.Name)
+			w.deletePod(p, "grace period over")
+			c.Count("env_pod_termination_finished", 1)
 		case 7: // a bare pod appears / a pod disappears
 			if r.Bool() || len(s.podKeys) < 3 {
 				np := w.newPod(nil, kit.Pick(r, w.nss), kit.Pick(r, w.nodes), w.genPodState())
@@ -1451,7 +1690,7 @@ func TestVerifC16ArbitrationRounds(t *testing.T) {
 		t.Fatalf("fixtures: %v", err)
 	}
 	kit.Run(t, kit.Config{Property: "C16", Unit: "rounds", Quick: 960, Thorough: 24000,
-		Rule: "generated cluster (2-4 nodes with skewed pod placement, 1-3 namespaces, 1-4 workloads of 1-12 replicas with per-pod readiness/phase, bare pods), start-up snapshot of Running/Succeeded/Failed/Aborted jobs (restart flavour: all re-delivered as Create events; warm flavour: not), 2-12 waiting jobs created by descheduler(with/without Filter)/user(with/without uid), limits global/node/namespace unset|0|1-6, per-workload migrating/unavailable unset|int|percent, eviction gates, injected API write failures; 2-5 real doOnceArbitrate() rounds with reconciler/user/workload activity in between; oracle on the API objects after every round; distinct = (which limits are on, workload limit kinds, flavour, admitted/held-for-headroom/failed classes of the round, set of dimensions that reached their limit in the round, some dimension exceeded before); non-trivial = a case with a round that both admitted a job and held back another live job (existing pod) because some budget had no room"},
+		Rule: "generated cluster (2-4 nodes with skewed pod placement, 1-3 namespaces, 1-4 workloads of 1-12 replicas with per-pod readiness/phase incl. terminating or finished pods whose Ready condition is still True (placed so that workloads sit one below / at their allowed unavailability), bare pods), start-up snapshot of Running/Succeeded/Failed/Aborted jobs (restart flavour: all re-delivered as Create events; warm flavour: not), 2-12 waiting jobs created by descheduler(with/without Filter)/user(with/without uid), limits global/node/namespace unset|0|1-6, per-workload migrating/unavailable unset|int|percent, eviction gates, injected API write failures; 2-5 real doOnceArbitrate() rounds with reconciler/user/workload activity in between; oracle on the API objects after every round; distinct = (which limits are on, workload limit kinds, flavour, admitted/held-for-headroom/failed classes of the round, set of dimensions that reached their limit in the round, some dimension exceeded before); non-trivial = a case with a round that both admitted a job and held back another live job (existing pod) because some budget had no room"},
 		func(c *kit.Case) {
 			r := c.R
 			cfg := c16aGenCfg(r)
